@@ -283,6 +283,8 @@ class SimAdapter:
             m.set_description(op["s"])
         elif k == "rescale_stds":
             m.rescale_stds(op["factor"])
+        elif k == "reset_stds":
+            m.reset_stds()
         elif k == "portable_roundtrip":
             import json
             ir = _irispie()
